@@ -169,8 +169,8 @@ def transport_covers(mode_transport, conn_transport):
 
 
 def reference(case):
-    """(required_reason or None, unjudged_reason or None)"""
-    req = unj = None
+    """(required_reason or None, unjudged_reason or None, transport of the denoted listener's mode or None)"""
+    req = unj = req_mt = None
     for spec, addrs in case["servers"]:
         mt = mode_specs.ProxyMode.parse(spec).transport_protocol
         for a in addrs:
@@ -181,9 +181,9 @@ def reference(case):
                 continue
             if why.startswith("unjudged:"):
                 unj = unj or why
-            else:
-                req = req or why
-    return req, unj
+            elif req is None:
+                req, req_mt = why, mt
+    return req, unj, req_mt
 
 
 # ---------------------------------------------------------------------------
@@ -256,19 +256,18 @@ def call_world(case):
         w.dispose()
 
 
-def listen_kind_of(case):
-    return case.get("listen", "?")
-
-
-def features(case, req):
-    mts = sorted({mode_specs.ProxyMode.parse(s).transport_protocol for s, _ in case["servers"]})
-    return {"dest_kind": case["kind"], "listen": case["listen"], "mode_transport": "+".join(mts), "conn_transport": case["transport"],
-            "arrangement": case["arr"], "via": case.get("via", "guard")}
+def features(case, req_mt):
+    """coarse trigger classes: how the destination is spelled, what kind of address the listener sits on,
+    the transport of the mode whose listener is denoted, and where that listener sits among the servers"""
+    listener = case["listen"].split("-")[0]
+    if listener == "dual":
+        listener = case["listen"].split("-")[1]
+    return {"dest_kind": case["kind"], "listener": listener, "mode_transport": req_mt or "-", "arrangement": case["arr"]}
 
 
 def run_case(case, t: Tally, verbose=False):
-    req, unj = reference(case)
-    feats = features(case, req)
+    req, unj, req_mt = reference(case)
+    feats = features(case, req_mt)
     world = case.get("via") == "world"
     obs = call_world(case) if world else call_guard(case)
     if verbose:
@@ -381,8 +380,8 @@ def run(ctx):
         "guard_cases": len(cases), "full_core_cases": len(wcases),
     }
     ctx.log("%d guard cases, %d full-core cases, %d destination spellings" % (len(cases), len(wcases), len(dests)))
-    par.pmap_tally(chunk_fn, cases, ctx.tally, nchunks=64)
-    par.pmap_tally(chunk_fn, wcases, ctx.tally, nchunks=64)
+    # a guard case costs ~0.1 ms and a full-core case ~4 ms: one chunk per worker, a single pool
+    par.pmap_tally(chunk_fn, cases + wcases, ctx.tally, nchunks=par.NPROC)
     t = ctx.tally
     ctx.log("counters: %s" % dict(sorted(t.extra.items())))
     if not t.nontrivial:
